@@ -248,11 +248,11 @@ func (v *vfsState) children(abs string) []string {
 	return names
 }
 
-func (in *Interp) fileInfo(name string, dir bool) Value {
+func (in *Interp) fileInfo(name string, dir bool, link bool) Value {
 	if in.cfg.FileInfoType == nil {
 		in.unsupported("harness package does not declare vfsFileInfo")
 	}
-	return Iface{T: in.cfg.FileInfoType, V: Struct{name, dir}}
+	return Iface{T: in.cfg.FileInfoType, V: Struct{name, dir, link}}
 }
 
 // vfsWalk implements path/filepath.Walk over the virtual tree.
@@ -271,10 +271,10 @@ func (in *Interp) vfsWalk(caller *frame, fn *ssa.Function, rootv, cb Value) Valu
 	var walk func(path string, e *vfsEntry) Iface
 	walk = func(path string, e *vfsEntry) Iface {
 		if e.kind != vfsDir {
-			return callCB(path, in.fileInfo(basePath(path), false), Iface{})
+			return callCB(path, in.fileInfo(basePath(path), false, e.kind == vfsDanglingLink), Iface{})
 		}
 		names := v.children(v.abs(path))
-		if r := callCB(path, in.fileInfo(basePath(path), true), Iface{}); r.T != nil {
+		if r := callCB(path, in.fileInfo(basePath(path), true, false), Iface{}); r.T != nil {
 			return r
 		}
 		for _, name := range names {
